@@ -1065,6 +1065,19 @@ class C19(Prop):
         for _ in range(n // 10):
             s, d = G.rand_bytes(rng, 108), G.rand_bytes(rng, 108)
             add("ctor unix %s %s" % (s.hex(), d.hex()), ("unix", s, d))
+        # equal components (source = destination, equal ports): a "self-connection" filter shows only here
+        for _ in range(max(20, n // 20)):
+            sa = G.rand_bytes(rng, 4)
+            sa6 = G.rand_bytes(rng, 16)
+            sp = rng.choice([0, 80, 65535, rng.getrandbits(16)])
+            add("ctor ip4 %s %s %d %d" % (sa.hex(), sa.hex(), sp, sp), ("ip4", sa, sa, sp, sp))
+            add("ctor ip6 %s %s %d %d" % (sa6.hex(), sa6.hex(), sp, sp), ("ip6", sa6, sa6, sp, sp))
+            s4 = "v4/%s/%d" % (sa.hex(), sp)
+            s6 = "v6/%s/%d/%d/%d" % (sa6.hex(), sp, 7, 9)
+            add("ctor sock %s %s" % (s4, s4), ("sock", "44", sa, sa, sa6, sa6, sp, sp))
+            add("ctor sock %s %s" % (s6, s6), ("sock", "66", sa, sa, sa6, sa6, sp, sp))
+            u = G.special_unix(rng)
+            add("ctor unix %s %s" % (u.hex(), u.hex()), ("unix", u, u))
         # special addresses in every pairing: IPv4-mapped / -compatible / NAT64 V6, loopback, unspecified, broadcast
         v4s = [bytes([0, 0, 0, 0]), bytes([127, 0, 0, 1]), bytes([255] * 4), bytes([10, 1, 2, 3]), bytes([192, 168, 0, 1])]
         v6s = [bytes(16), bytes(15) + b"\x01", b"\xff" * 16]
